@@ -3,6 +3,7 @@
 package c05
 
 import (
+	"runtime"
 	"os"
 	"fmt"
 	"sort"
@@ -420,6 +421,107 @@ func TestC05Concurrent(t *testing.T) {
 			}
 			rep.Sample(map[string]interface{}{"part": "concurrent", "form": form, "goroutines": g, "lens": fmt.Sprint(cfg.lens), "ops": s})
 		}
+	}
+}
+
+// TestC05Long: one long sequence (thousands of distinct elements) on the default stub and one on a condition, hammered
+// by as many goroutines as there are processors until everybody has seen the last element; the recorded history is
+// checked directly: every value an element, no call that started after position p had been returned receives less
+// than p, and after the last element only the last element.
+func TestC05Long(t *testing.T) {
+	rep := vmon.NewReport("C05")
+	defer rep.Write()
+	shard, _ := vmon.Shard()
+	L := vmon.EnvInt("VERIF_C05_LONG", 6000)
+	rounds := vmon.EnvInt("VERIF_C05_LONGROUNDS", 4)
+	forms := []string{"func", "method", "iface", "func2"}
+	if os.Getenv("VERIF_C05_DEBUG") == "1" {
+		mocker.OpenDebug()
+		defer mocker.CloseDebug()
+	}
+	for r := 0; r < rounds; r++ {
+		form := forms[(r+shard)%len(forms)]
+		cfg := seqCfg{form: form, lens: map[int]int{-1: L, 0: L}, andForm: map[int]bool{-1: false, 0: false}}
+		var iv I
+		b := mocker.Create()
+		call := install(b, cfg, &iv)
+		g := runtime.GOMAXPROCS(0)
+		if g > 16 {
+			g = 16
+		}
+		if g < 4 {
+			g = 4
+		}
+		type op struct {
+			t0, t1 int64
+			key, p int
+		}
+		var clock vmon.Clock
+		bar := vmon.NewSpinBarrier(g)
+		ops := make([][]op, g)
+		var wg sync.WaitGroup
+		for c := 0; c < g; c++ {
+			wg.Add(1)
+			go func(c int) {
+				defer wg.Done()
+				bar.Wait()
+				seenLast := 0
+				for i := 0; i < 4*L && seenLast < 3; i++ {
+					k := -1 + (i+c)%2
+					t0 := clock.Tick()
+					v := call(k)
+					t1 := clock.Tick()
+					p := v - (k+2)*100000
+					ops[c] = append(ops[c], op{t0, t1, k, p})
+					if p == L-1 {
+						seenLast++
+					}
+				}
+			}(c)
+		}
+		wg.Wait()
+		b.Reset()
+		for _, key := range []int{-1, 0} {
+			type ev struct {
+				t    int64
+				call bool
+				p    int
+			}
+			var evs []ev
+			n := 0
+			for _, o := range ops {
+				for _, x := range o {
+					if x.key != key {
+						continue
+					}
+					n++
+					if x.p < 0 || x.p >= L {
+						rep.Violate("C05/concurrent-not-an-element", fmt.Sprintf("%s: long sequence of %d on stub %d: a call returned %d which is not one of its elements", form, L, key, x.p+(key+2)*100000), nil)
+						continue
+					}
+					evs = append(evs, ev{x.t0, true, x.p}, ev{x.t1, false, x.p})
+				}
+			}
+			sort.Slice(evs, func(i, j int) bool { return evs[i].t < evs[j].t })
+			maxRet, back := -1, 0
+			for _, e := range evs {
+				if e.call {
+					if e.p < maxRet {
+						back++
+						if back <= 2 {
+							rep.Violate("C05/concurrent-position-went-backwards", fmt.Sprintf("%s stub %d, long sequence of %d, %d goroutines: a call that started after position %d had been returned received position %d", form, key, L, g, maxRet, e.p),
+								map[string]interface{}{"form": form, "goroutines": g, "length": L})
+						}
+					}
+				} else if e.p > maxRet {
+					maxRet = e.p
+				}
+			}
+			rep.Eval(int64(n))
+			rep.Stat("long_sequence_ops", int64(n))
+		}
+		rep.Class(fmt.Sprintf("long/%s/g%d", form, bucket(g)))
+		rep.Stat("long_sequence_histories", 1)
 	}
 }
 
